@@ -475,8 +475,15 @@ class WorkflowConductor(object):
 
         term_tasks = self.workflow_state.get_terminal_tasks()
 
+        # If there is no terminal task, i.e. the workflow is canceled while no task is active,
+        # then use the initial context and the contexts of the tasks that are staged to run.
         if not term_tasks:
-            return wf_term_ctx
+            ctx_idxs = [0] if self.workflow_state.contexts else []
+
+            for staged_task in self.workflow_state.get_staged_tasks(filtered=False):
+                ctx_idxs.extend([i for i in staged_task["ctxs"]["in"] if i not in ctx_idxs])
+
+            return self.get_task_context(ctx_idxs)
 
         _, first_term_task = term_tasks[0:1][0]
         other_term_tasks = term_tasks[1:]
